@@ -84,8 +84,12 @@ func (dr *driver) judge(c core.Case, r core.Result, race bool) {
 		json.Unmarshal(r.Out, &out)
 	}
 	r.Out = nil
-	if race && r.Races > 0 {
+	if r.Races > 0 {
+		// races are filed under their own classes (two conflicting access sites);
+		// the report is then removed so that the core does not report it again
 		dr.judgeRaces(c, &r)
+		d.T.Count("race_reports", int64(r.Races))
+		r.Races, r.Race = 0, ""
 	}
 	switch r.Status {
 	case core.OK, core.Violation, core.Inconclusive:
@@ -258,7 +262,7 @@ func (p prop) Drive(d *core.Driver) error {
 	}
 	d.T.Set("corpus", map[string]int{"programs": len(corpus.Programs), "templates": len(corpus.Templates), "program_sets": len(corpus.ProgSets), "template_sets": len(corpus.TmplSets), "snippets": len(corpus.Snippets), "fragments": len(corpus.Fragments)})
 
-	total := d.N(30000, 500000)
+	total := d.N(30000, 1000000)
 	round := 60000
 	done := 0
 	sampled := 0
